@@ -255,11 +255,7 @@ Proof.
       * destruct (c_st (get_co s c)); try reflexivity. rewrite atomic_yield. reflexivity.
     + destruct (t_ready (get_thr s t)); [reflexivity|]. rewrite atomic_change. reflexivity.
   - reflexivity.
-  - unfold scan.
-    assert (forall l s0, m_atomic (fold_left (fun s1 n => if fst n <=? m_clock s1
-                         then upd_thr s1 (snd n) (t_with_pending (get_thr s1 (snd n)) true) else s1) l s0) = m_atomic s0) as Hg.
-    { induction l as [|n l IH]; intro s0; [reflexivity|]. cbn [fold_left]. rewrite IH. destruct (fst n <=? m_clock s0); reflexivity. }
-    apply Hg.
+  - rewrite scan_eq. destruct (in_flight s); [|apply scan_fold_atomic]. change (m_atomic (with_nodes (scan_fold s) (m_nodes (scan_fold s)) true)) with (m_atomic (scan_fold s)). apply scan_fold_atomic.
   - destruct (Nat.ltb t (length (m_thr s))); [|reflexivity]. unfold deliver.
     destruct (negb (t_pending (get_thr s t))); [reflexivity|]. destruct (t_mid (get_thr s t)); [reflexivity|].
     destruct (t_cur (get_thr s t)) as [c|]; [|reflexivity].
@@ -348,13 +344,13 @@ Proof.
   - split; [reflexivity|]. split; [reflexivity|]. split; [reflexivity|]. split; [intro t; repeat split; tauto | lia].
 Qed.
 
-Lemma scan_facts s :
-  m_cos (scan s) = m_cos s /\ length (m_thr (scan s)) = length (m_thr s) /\ m_clock (scan s) = m_clock s /\
-  (forall t, t_cur (get_thr (scan s) t) = t_cur (get_thr s t) /\ t_ready (get_thr (scan s) t) = t_ready (get_thr s t) /\
-             t_mid (get_thr (scan s) t) = t_mid (get_thr s t)) /\
-  (forall n, In n (m_nodes s) -> fst n <= m_clock s -> (snd n < length (m_thr s))%nat -> t_pending (get_thr (scan s) (snd n)) = true).
+Lemma scan_fold_facts s :
+  m_cos (scan_fold s) = m_cos s /\ length (m_thr (scan_fold s)) = length (m_thr s) /\ m_clock (scan_fold s) = m_clock s /\
+  (forall t, t_cur (get_thr (scan_fold s) t) = t_cur (get_thr s t) /\ t_ready (get_thr (scan_fold s) t) = t_ready (get_thr s t) /\
+             t_mid (get_thr (scan_fold s) t) = t_mid (get_thr s t)) /\
+  (forall n, In n (m_nodes s) -> fst n <= m_clock s -> (snd n < length (m_thr s))%nat -> t_pending (get_thr (scan_fold s) (snd n)) = true).
 Proof.
-  unfold scan. change (fun s1 n => if fst n <=? m_clock s1 then upd_thr s1 (snd n) (t_with_pending (get_thr s1 (snd n)) true) else s1) with scan_f.
+  unfold scan_fold. change (fun s1 n => if fst n <=? m_clock s1 then upd_thr s1 (snd n) (t_with_pending (get_thr s1 (snd n)) true) else s1) with scan_f.
   generalize (m_nodes s) as l. intro l.
   assert (forall l s0,
             m_cos (fold_left scan_f l s0) = m_cos s0 /\ length (m_thr (fold_left scan_f l s0)) = length (m_thr s0) /\
@@ -378,6 +374,16 @@ Proof.
   destruct (Hg l s) as (C1 & C2 & C3 & C4 & C5).
   split; [exact C1|]. split; [exact C2|]. split; [exact C3|]. split; [|exact C5].
   intro t. destruct (C4 t) as (c1 & c2 & c3 & _). repeat split; assumption.
+Qed.
+
+Lemma scan_facts s :
+  m_cos (scan s) = m_cos s /\ length (m_thr (scan s)) = length (m_thr s) /\ m_clock (scan s) = m_clock s /\
+  (forall t, t_cur (get_thr (scan s) t) = t_cur (get_thr s t) /\ t_ready (get_thr (scan s) t) = t_ready (get_thr s t) /\
+             t_mid (get_thr (scan s) t) = t_mid (get_thr s t)) /\
+  (forall n, In n (m_nodes s) -> fst n <= m_clock s -> (snd n < length (m_thr s))%nat -> t_pending (get_thr (scan s) (snd n)) = true).
+Proof.
+  rewrite scan_eq. destruct (in_flight s); [|apply scan_fold_facts].
+  exact (scan_fold_facts s).
 Qed.
 
 (** a coroutine that has been Running for the whole slice is signalled by the monitor's next scan,
